@@ -764,6 +764,10 @@ class _FutureImportRule(SyntaxRule):
             if not _is_future_import_first(node):
                 return True
 
+            if node.is_star_import():
+                self.add_issue(node, message="future feature * is not defined")
+                return
+
             for from_name, future_name in node.get_paths():
                 name = future_name.value
                 allowed_futures = list(ALLOWED_FUTURES)
